@@ -118,6 +118,31 @@ fn edge(mut c: ModelCase, bits: u64) -> ModelCase {
             inject_infinity(e, &mut k, bits & 64 == 64);
         }
     }
+    // finite constants whose products or sums overflow, written on both sides so that the
+    // overflows cancel (inf - inf): the result must be a rejection, never a NaN in the model
+    if (bits >> 40) & 7 == 7 {
+        let h = |v: f64| SExp::Num(v);
+        let scale2 = |e: SExp| SExp::Mul(h(1e200).b(), SExp::Mul(h(1e200).b(), e.b()).b());
+        let pad = |e: SExp| SExp::Add(SExp::Add(h(1e308).b(), e.b()).b(), h(1e308).b());
+        let form = (bits >> 44) & 3;
+        let non_bare: Vec<usize> = (0..c.cons.len()).filter(|i| !c.cons[*i].bare).collect();
+        if form == 3 || non_bare.is_empty() {
+            if let SObj::Min(e) | SObj::Max(e) = &mut c.obj {
+                let inner = e.clone();
+                *e = SExp::Sub(pad(inner.clone()).b(), pad(SExp::Num(1.0)).b());
+            }
+        } else {
+            let i = non_bare[pick(48, non_bare.len() as u64)];
+            let (l, r) = (c.cons[i].lhs.clone(), c.cons[i].rhs.clone());
+            if form == 0 {
+                c.cons[i].lhs = SExp::Add(scale2(l.clone()).b(), l.b());
+                c.cons[i].rhs = SExp::Add(scale2(r.clone()).b(), r.b());
+            } else {
+                c.cons[i].lhs = pad(l);
+                c.cons[i].rhs = pad(r);
+            }
+        }
+    }
     c
 }
 
@@ -209,7 +234,7 @@ impl Prop for C08 {
         serde_json::to_string(&c.text()).unwrap()
     }
     fn rule(&self) -> String {
-        "source models as in C01/C02 (with objective, inexact constants, unbounded declarations) of which three quarters carry edge features: a user variable named like a compiler auxiliary ($abs_0, $or_0, $max_0_select_1, ...), constraint names that duplicate each other or look like the de-duplication suffix (dup, dup__2, dup__3), the constants Infinity / MinusInfinity injected in constraints and objective, declared-but-unused variables. Every successfully compiled model is checked against the invariant list (sorted duplicate-free variables = domain keys, source variables present, one coefficient per variable in every row and the objective, finite coefficients / right-hand sides / offset, unique non-empty row names, every user-written name still on a row, declared variables keep their kind inside their declaration); a MissingFiniteBounds error must name at least one variable, only variables of the source, each with an infinite derived side; a NonFiniteNumber error for a source without infinite constants is a violation (the missing bound was turned into a constant). Non-trivial = compiled model with an edge feature (duplicate or suffix-like name, unused declaration, infinite constant, aux-like user name). Distinct = distinct model text.".into()
+        "source models as in C01/C02 (with objective, inexact constants, unbounded declarations) of which three quarters carry edge features: a user variable named like a compiler auxiliary ($abs_0, $or_0, $max_0_select_1, ...), constraint names that duplicate each other or look like the de-duplication suffix (dup, dup__2, dup__3), the constants Infinity / MinusInfinity injected in constraints and objective, finite constants (1e200, 1e308 written out) whose products and sums overflow and cancel, declared-but-unused variables. Every successfully compiled model is checked against the invariant list (sorted duplicate-free variables = domain keys, source variables present, one coefficient per variable in every row and the objective, finite coefficients / right-hand sides / offset, unique non-empty row names, every user-written name still on a row, declared variables keep their kind inside their declaration); a MissingFiniteBounds error must name at least one variable, only variables of the source, each with an infinite derived side; a NonFiniteNumber error for a source without infinite constants is a violation (the missing bound was turned into a constant). Non-trivial = compiled model with an edge feature (duplicate or suffix-like name, unused declaration, infinite constant, aux-like user name). Distinct = distinct model text.".into()
     }
     fn check(&self, case: &ModelCase) -> Outcome {
         let referenced = case.referenced_vars();
@@ -219,7 +244,16 @@ impl Prop for C08 {
                 names.push(c.name.clone());
             }
         }
-        let has_inf = case.text().contains("Infinity");
+        // an infinite number can be written (Infinity) or made by finite constants that overflow
+        let mut consts = vec![];
+        for k in &case.cons {
+            k.lhs.consts(&mut consts);
+            k.rhs.consts(&mut consts);
+        }
+        if let SObj::Min(e) | SObj::Max(e) = &case.obj {
+            e.consts(&mut consts);
+        }
+        let has_inf = case.text().contains("Infinity") || consts.iter().any(|c| c.abs() >= 1e100);
         let unused = case.vars.iter().any(|v| !referenced.contains(&v.0));
         let auxlike = case.vars.iter().any(|v| v.0.starts_with('$'));
         let dupnames = {
